@@ -338,10 +338,14 @@ class GetOutputFor(Contract):
 
 
 class Prune(SC._Sched):
-    """prune_dataflow_cache(world): with the cache on, every simulator's cache keeps exactly the entries
-    with output time >= the minimum over all simulators of the time of their last step; nothing else
-    changes.  (Whether that bound retains everything a consumer can still ask for is the retention
-    clause of C03 -- recorded known finding F4.)"""
+    """prune_dataflow_cache(world) -- the retention clause of C03 / the cache half of C04:
+    whatever a consumer can still ask the cache for is answered as before.  For every pulled connection
+    (consumer c reads src with time shift d) and every future step time t >= c.last_step.time the newest entry of
+    src with output time <= t - d (what get_output_for returns, GetOutputFor) is still there.  Also: entries are
+    only removed, never added or changed; a simulator keeps every entry that a read at or after
+        bound = min over simulators of last_step.time - max over pulled connections of the shift (0 if none)
+    can return (how much more it keeps is not part of the property); nothing but the caches changes; without
+    the cache nothing changes at all."""
     target = "mosaik.scheduler.prune_dataflow_cache"
     property_ids = ["C03", "C04"]
     configure = "configure_sched"
@@ -349,27 +353,46 @@ class Prune(SC._Sched):
     configure_small2 = None
 
     def make_args(self, mk):
+        self._mn = mk.const("spec_min_last_step_time", z3.IntSort())
+        self._mx = mk.const("spec_max_shift", z3.IntSort())
         return {"world": mk.s.sched.world}
 
     def requires(self, A):
         M = self._M
         a, h = M.alg, SC.H(self._h0)
         k = z3.Int("k!rq")
+        c, s, d = z3.Const("c!rq", a.Sim), z3.Const("s!rq", a.Sim), z3.Const("d!rq", a.D)
+        mn, mx = self._mn, self._mx
         return And(SC.static_ok(M), SC.typing(M, h),
-                   a.forall_sims(lambda s: Implies(Not(M.has_outputs(s)), z3.ForAll([k], Not(h.OUTP[s][k])))))
+                   a.forall_sims(lambda s_: Implies(Not(M.has_outputs(s_)), z3.ForAll([k], Not(h.OUTP[s_][k])))),
+                   z3.ForAll([c, s, d], Implies(M.PULL(c, s, d), And(a.d_wf(d), a.dlen(d) >= 1))),
+                   # spec constants by definite description (finitely many simulators and connections: both exist)
+                   a.forall_sims(lambda x: a.time(h.LS[x]) >= mn), a.exists_sims(lambda x: a.time(h.LS[x]) == mn),
+                   z3.ForAll([c, s, d], Implies(M.PULL(c, s, d), a.dtier(d, 0) <= mx)),
+                   Or(And(mx == 0, Not(z3.Exists([c, s, d], M.PULL(c, s, d)))),
+                      z3.Exists([c, s, d], And(M.PULL(c, s, d), a.dtier(d, 0) == mx))))
 
-    def at_least_min(self, k):
-        """k >= min over all simulators of last_step.time  (the set of simulators is not empty)"""
-        M = self._M
-        a, h = M.alg, SC.H(self._h0)
-        return a.exists_sims(lambda s: k >= a.time(h.LS[s]))
+    # ---- specification
+    def is_bound(self, b):
+        """b = min last_step.time - max shift"""
+        return b == self._mn - self._mx
+
+    def readable(self, s, k, b):
+        """entry k of s is what some read at a time >= b returns: k >= b, or k is the newest entry <= b"""
+        h = SC.H(self._h0)
+        k2 = z3.Int("k2!rd")
+        return And(h.OUTP[s][k], Or(k >= b, Not(z3.Exists([k2], And(h.OUTP[s][k2], k < k2, k2 <= b)))))
 
     def _inv(self, v):
         M, h0, h1 = self._M, self._h0, self.cur()
         a = M.alg
         k = z3.Int("k!iv")
-        return {"processed_filtered_rest_untouched": a.forall_sims(lambda s: z3.ForAll([k], h1["OUTP"][s][k] == z3.If(
-            v.seen[s], And(h0["OUTP"][s][k], self.at_least_min(k)), h0["OUTP"][s][k]))),
+        # the bound the code works with (the specification's bound if the code has no such local)
+        b = v.bound if v.has("bound") and is_z3(v.bound) else self._mn - self._mx
+        return {"processed_keep_the_readable_entries_rest_untouched": a.forall_sims(lambda s: z3.ForAll([k], z3.If(
+            v.seen[s], And(Implies(self.readable(s, k, b), h1["OUTP"][s][k]), Implies(h1["OUTP"][s][k], h0["OUTP"][s][k])),
+            h1["OUTP"][s][k] == h0["OUTP"][s][k]))),
+            "bound_not_above_min_last_step_minus_max_shift": b <= self._mn - self._mx,
             "frame": SC.frame(M, h0, h1, {"OUTP": None})}
 
     loops = {0: lambda c, i, v, A: c._inv(v)}
@@ -377,11 +400,18 @@ class Prune(SC._Sched):
 
     def split_post(self, A, result):
         M, h0, h1 = self._M, self._h0, self.cur()
-        a = M.alg
-        k = z3.Int("k!ps")
+        a, H0 = M.alg, SC.H(self._h0)
+        k, k2, t, b = z3.Int("k!ps"), z3.Int("k2!ps"), z3.Int("t!ps"), z3.Int("b!ps")
+        c, s, d = z3.Const("c!ps", a.Sim), z3.Const("s!ps", a.Sim), z3.Const("d!ps", a.D)
+        q = t - a.dtier(d, 0)
         return {
-            "keeps_exactly_entries_from_min_last_step": Implies(M.use_cache, a.forall_sims(
-                lambda s: z3.ForAll([k], h1["OUTP"][s][k] == And(h0["OUTP"][s][k], self.at_least_min(k))))),
+            "C03_retention_every_future_pull_is_answered_as_before": z3.ForAll([c, s, d, t, k], Implies(
+                And(M.PULL(c, s, d), t >= a.time(H0.LS[c]),
+                    h0["OUTP"][s][k], k <= q, Not(z3.Exists([k2], And(h0["OUTP"][s][k2], k < k2, k2 <= q)))),
+                h1["OUTP"][s][k])),
+            "only_removes": a.forall_sims(lambda s_: z3.ForAll([k], Implies(h1["OUTP"][s_][k], h0["OUTP"][s_][k]))),
+            "keeps_every_readable_entry": z3.Exists([b], And(self.is_bound(b), a.forall_sims(
+                lambda s_: z3.ForAll([k], Implies(self.readable(s_, k, b), h1["OUTP"][s_][k]))))),
             "untouched_without_cache": Implies(Not(M.use_cache), h1["OUTP"] == h0["OUTP"]),
             "frame": SC.frame(M, h0, h1, {"OUTP": None}),
         }
@@ -391,10 +421,11 @@ class Prune(SC._Sched):
 
     def native_search(self, budget):
         import itertools
-        for keys in ([], [0], [0, 1], [0, 5], [-2, 0, 3], [3, 1]):
+        for keys in ([], [0], [0, 1], [0, 5], [-2, 0, 3], [1, 3], [-2], [0, 2, 4, 6]):   # (insertion order = time order)
             for ls in itertools.product((-1, 0, 1, 3, 5), repeat=2):
                 for cache in (True, False):
-                    yield {"keys": keys, "last_steps": list(ls), "cache": cache}
+                    for shift in (None, 0, 1, 2):
+                        yield {"keys": keys, "last_steps": list(ls), "cache": cache, "shift": shift}
 
     def native_call(self, m):
         if "keys" not in m:
@@ -402,7 +433,7 @@ class Prune(SC._Sched):
         import mosaik
         from mosaik import scheduler
         from mosaik.simmanager import SimRunner
-        from mosaik.tiered_time import TieredTime
+        from mosaik.tiered_time import TieredTime, TieredInterval
         from contracts.scheduler_native import _StubProxy
         w = mosaik.World({}, skip_greetings=True, cache=m["cache"])
         try:
@@ -413,11 +444,27 @@ class Prune(SC._Sched):
                 s.outputs = {k: {"v": k} for k in m["keys"]} if (m["cache"] and i == 0) else ({} if m["cache"] else None)
                 w.sims[s.sid] = s
                 sims.append(s)
+            shift = m.get("shift")
+            if shift is not None and m["cache"]:
+                sims[1].pulled_inputs[(sims[0], TieredInterval(shift, cutoff=1, pre_length=1))] = set()
+            before = dict(sims[0].outputs) if sims[0].outputs is not None else None
             scheduler.prune_dataflow_cache(w)
-            mn = min(m["last_steps"])
-            exp = [k for k in m["keys"] if (k >= mn or not m["cache"])] if m["cache"] else None
-            got = list(sims[0].outputs) if sims[0].outputs is not None else None
-            return got == exp, f"cache keys {m['keys']}, last steps {m['last_steps']}, cache={m['cache']}: kept {got}, expected {exp}"
+            got = sims[0].outputs
+            if not m["cache"]:
+                return got is None, f"cache off: outputs {got!r}"
+            # the property: every read the consumer S1 can still make is answered as before
+            problems = []
+            if got is not None and any(k not in before or got[k] is not before[k] for k in got):
+                problems.append("entries added or changed")
+            if shift is not None:
+                for t in range(max(m["last_steps"][1], -1), 12):
+                    old = next((before[k] for k in reversed(before) if k <= t - shift), {})
+                    new = sims[0].get_output_for(t - shift)
+                    if new is not old and new != old:
+                        problems.append(f"read for step {t} (time {t - shift}) returned {new} instead of {old}")
+                        break
+            return not problems, (f"cache keys {m['keys']}, last steps {m['last_steps']}, S1 pulls from S0 with shift {shift}: kept "
+                                  f"{list(got)}" + ("; " + "; ".join(problems) if problems else ""))
         finally:
             w.loop.close()
 
